@@ -1,5 +1,7 @@
 import ASV.Drv.J
 import ASV.Spec.Serial
+import ASV.Spec.ProtDna
+import ASV.Spec.SerialQual
 namespace ASV.Drv.C10
 open Lean ASV ASV.Drv ASV.Serial
 
@@ -128,6 +130,85 @@ def areasSorted (r : Rec) : Bool :=
 
 def optRec (j : Json) (k : String) : R (Option Rec) := optOf recOfJson j k
 
+def annotOfJson (j : Json) : R (String × String × String × Option String) := do
+  return (← strF j "fn", ← strF j "tool", ← strF j "description", ← optOf asStr j "product")
+def annotToJson (a : Annot) : Json :=
+  jObj [("fn", Json.str a.fn.label), ("tool", Json.str a.tool), ("description", Json.str a.description),
+        ("product", optToJson Json.str a.product)]
+def smOfJson (j : Json) : R SMDom := do
+  return ⟨← strF j "name", ← strF j "evalue", ← strF j "bitscore", ← strF j "nseeds", ← strF j "tool"⟩
+def smToJson (d : SMDom) : Json :=
+  jObj [("name", Json.str d.name), ("evalue", Json.str d.evalue), ("bitscore", Json.str d.bitscore),
+        ("nseeds", Json.str d.nseeds), ("tool", Json.str d.tool)]
+
+/-- the text inside the class-specific qualifiers (ASV/Model/SerialQual.lean) -/
+def qualText (j : Json) : R Json := do
+  match ← strF j "kind" with
+  | "format" =>
+    let fmt ← strF j "fmt"
+    return jObj [("modelled", toJson (fmtToks fmt.toList).isSome),
+                 ("groups", optToJson jStrs (parseFormat fmt (← strF j "data")))]
+  | "genefn" =>
+    return jObj [("parsed", eToJson annotToJson (Annot.fromStr (← strF j "text")))]
+  | "genefns" =>
+    -- GeneFunctionAnnotations built with add(), written, read back with add_from_qualifier()
+    let raw ← listOf annotOfJson (← fld j "annots")
+    let built : E (List Annot) := raw.foldlM (fun l (f, t, d, p) =>
+      match GeneFn.ofLabel f with
+      | some fn => annAdd l fn t d p
+      | none => throw "value-error") []
+    let quals : E Quals := do pure (annQuals (← built))
+    let back : E (List Annot) := do annFromQualifier [] ((Q.get? (← quals) "gene_functions").getD [])
+    let again : E Quals := do pure (annQuals (← back))
+    return jObj [("built", eToJson (fun l => jArr (l.map annotToJson)) built), ("quals", eToJson qualsToJson quals),
+                 ("back", eToJson (fun l => jArr (l.map annotToJson)) back), ("again", eToJson qualsToJson again),
+                 ("same", toJson (match built, back with | .ok a, .ok b => a == b | _, _ => false)),
+                 ("scope", toJson (match built with | .ok l => l.all (fun a => a.wf && a.textSafe) | _ => false))]
+  | "secmet" =>
+    let ds ← listOf smOfJson (← fld j "domains")
+    let built := smAdd [] ds
+    let strs := built.map SMDom.toStr
+    let back := smFromQualifier strs
+    return jObj [("built", jArr (built.map smToJson)), ("strs", jStrs strs),
+                 ("back", eToJson (fun l => jArr (l.map smToJson)) back),
+                 ("same", toJson (match back with | .ok b => b == built | _ => false)),
+                 ("scope", toJson (built.all (·.textSafe)))]
+  | k => throw s!"C10: unknown qualtext kind {k}"
+
+
+def domOfJson (j : Json) : R Dom := do
+  return ⟨← featOfJson (← fld j "feat"), ← strF j "tool", ← strF j "locus_tag", ← intF j "p_start", ← intF j "p_end",
+          ← optOf asStr j "domain", ← listOf asStr (← fld j "asf"), ← optOf asStr j "domain_id", ← optOf asStr j "database",
+          ← optOf asStr j "detection", ← optOf asStr j "label", ← optOf asStr j "evalue", ← optOf asStr j "score",
+          ← strF j "translation"⟩
+def domToJson (d : Dom) : Json :=
+  jObj [("feat", featToJson d.feat), ("tool", Json.str d.tool), ("locus_tag", Json.str d.locusTag),
+        ("p_start", toJson d.pStart), ("p_end", toJson d.pEnd), ("domain", optToJson Json.str d.domain),
+        ("asf", jStrs d.asf), ("domain_id", optToJson Json.str d.domainId), ("database", optToJson Json.str d.database),
+        ("detection", optToJson Json.str d.detection), ("label", optToJson Json.str d.label),
+        ("evalue", optToJson Json.str d.evalue), ("score", optToJson Json.str d.score), ("translation", Json.str d.translation)]
+
+/-- domains and motifs outside any record: write, read back, write again; or read an arbitrary feature -/
+def domOp (j : Json) : R Json := do
+  let kind ← match ← strF j "kind" with
+    | "aSDomain" => pure DomKind.asDomain
+    | "CDS_motif" => pure DomKind.motif
+    | k => throw s!"C10: unknown domain kind {k}"
+  match j.getObjVal? "bio" with
+  | .ok bj =>
+    let b ← bioOfJson bj
+    return jObj [("back", eToJson domToJson (Dom.fromBio kind b))]
+  | .error _ =>
+    let d ← domOfJson (← fld j "d")
+    let b := d.toBio
+    let back : E Dom := do Dom.fromBio kind (← b)
+    let again : E Bio := do (← back).toBio
+    return jObj [("bio", eToJson (fun b => biosToJson [b]) b), ("back", eToJson domToJson back),
+                 ("again", eToJson (fun b => biosToJson [b]) again),
+                 ("same", toJson (match back with | .ok d' => d' == { d with feat := d'.feat } | _ => false)),
+                 ("scope", toJson (domWFb kind d))]
+
+
 def handle (j : Json) : R Json := do
   let f ← strF j "f"
   match f with
@@ -160,6 +241,29 @@ def handle (j : Json) : R Json := do
                  ("swo", toJson (strictWeak r)), ("nodup", toJson (decide (allEntries r).Nodup)),
                  ("scope_wf", toJson (scopeButOrder r)),
                  ("swo_witness", if boolFD j "debug" false then Json.str (swoWitness r) else Json.null)]
+  | "prepeptide" =>
+    -- location part of Prepeptide.to_biopython / from_biopython
+    let l ← locOfJson (← fld j "loc")
+    let ld ← intF j "ld"
+    let tl ← intF j "tl"
+    let w := preWrite l ld tl
+    let wj := match w with
+      | .ok x => jObj [("ok", jObj [("core", locToJson x.core), ("leader", optToJson Json.str x.leader),
+                                    ("tail", optToJson Json.str x.tail)])]
+      | .valueError => jObj [("err", Json.str "value-error")]
+      | .assertion => jObj [("err", Json.str "assertion")]
+    let rr := match w with | .ok x => preRead x | _ => none
+    let translated := (ProtDna.bases l).take (3 * (l.len / 3).toNat)
+    let implRe ← optOf locOfJson j "re"
+    return jObj [("written", wj), ("reread", optToJson locToJson rr),
+                 ("model_bases_ok", toJson (match rr with | some r => ProtDna.bases r == translated | none => false)),
+                 ("impl_bases_ok", optToJson (fun (r : Loc) => toJson (ProtDna.bases r == translated)) implRe),
+                 ("impl_merged", optToJson (fun (r : Loc) => locToJson (mergeAdjoining r)) implRe),
+                 ("orig_merged", locToJson (mergeAdjoining l)),
+                 ("model_merged", optToJson (fun (r : Loc) => locToJson (mergeAdjoining r)) rr),
+                 ("scope", toJson (ProtDna.geneWF l && decide (0 ≤ ld) && decide (0 ≤ tl) && decide (ld + tl < l.len / 3)))]
+  | "qualtext" => qualText j
+  | "dom" => domOp j
   | "read" =>
     -- `Record.from_biopython` on an arbitrary feature list
     let bios ← listOf bioOfJson (← fld j "bios")
